@@ -1,7 +1,7 @@
 (* Final statements about the comparer model, used verbatim by Props/C20.v. *)
 From Coq Require Import String List Arith NArith ZArith Bool Lia.
 From SV Require Import Base.Base Cmp.Comparer Cmp.Diff Proofs.CmpBase Proofs.CmpAccept Proofs.CmpReject
-  Proofs.CmpSound Proofs.CmpWitness.
+  Proofs.CmpSound Proofs.CmpWitness Proofs.CmpAcceptAny.
 Import ListNotations.
 
 (* ---------- accepts ---------- *)
@@ -217,15 +217,19 @@ Lemma refuted_unnamed :
   exists a b, nv_diff MPortDir a b /\ compare a b = true.
 Proof. exists w_unnamed, w_unnamed_dir. split; [exact w_unnamed_dir_diff|exact w_unnamed_dir_accepted]. Qed.
 
-(* netlists outside the domain that are not accepted against their own copy *)
-Lemma refuted_self_wildcard_names : exists a, cmp_run a a = Reject.
-Proof. exists w_wild. exact w_wild_self. Qed.
-Lemma refuted_self_zero_width_port : exists a, cmp_run a a = Reject /\ a <> w_wild.
-Proof. exists w_zero. split; [exact w_zero_self|intro H; vm_compute in H; discriminate H]. Qed.
-Lemma refuted_self_short_assignment_name : exists a, cmp_run a a = IndexErr.
-Proof. exists w_short. exact w_short_self. Qed.
-Lemma refuted_self_unnamed_instance : exists a, cmp_run a a = AttrErr.
-Proof. exists w_noname. exact w_noname_self. Qed.
+(* the witnesses of the former self-reject refutations (sibling names 'ab' and 'a*'; a port without
+   pins; an instance named SDN_Assignment_x; a connected instance without a name): accepted
+   against their own copy since the repairs; the first three are in the domain of the theorems *)
+Lemma self_wildcard_names_accepted : wf_named w_wild /\ cmp_run w_wild w_wild = Accept.
+Proof. split; [exact w_wild_wf|exact w_wild_self]. Qed.
+Lemma self_zero_width_port_accepted : wf_named w_zero /\ cmp_run w_zero w_zero = Accept /\ w_zero <> w_wild.
+Proof. split; [exact w_zero_wf|split; [exact w_zero_self|intro H; vm_compute in H; discriminate H]]. Qed.
+Lemma self_short_assignment_name_accepted : wf_named w_short /\ no_asg w_short /\ cmp_run w_short w_short = Accept.
+Proof. destruct w_short_wf as [H1 H2]. split; [exact H1|split; [exact H2|exact w_short_self]]. Qed.
+Lemma self_unnamed_instance_accepted : ~ wf_named w_noname /\ cmp_run w_noname w_noname = Accept.
+Proof.
+  split; [|exact w_noname_self]. unfold wf_named. rewrite w_noname_not_named. discriminate.
+Qed.
 
 (* differences that were reported by another exception than AssertionError: a property the copy
    lacks (was KeyError), a renamed element (was StopIteration) *)
@@ -256,19 +260,161 @@ Proof.
   apply IH. cbn in Hl. lia.
 Qed.
 
-(* compare_instances on two instances with a reference: returns or raises AssertionError, whatever
-   their properties *)
-Lemma cmp_inst_assert_only o c : i_ref o <> None -> i_ref c <> None ->
-  assert_only (cmp_inst (Some o) (Some c)).
+Lemma assert_only_seq a b : assert_only a -> assert_only b -> assert_only (seq a b).
+Proof. intros [->| ->] Hb; cbn; [assumption|right; reflexivity]. Qed.
+
+Lemma assert_only_check b : assert_only (check b).
+Proof. destruct b; [left|right]; reflexivity. Qed.
+
+Lemma cmp_ref_assert_only ro rc : assert_only (cmp_ref ro rc).
 Proof.
-  intros Ho Hc. unfold cmp_inst. cbn [oi_name oi_oid].
-  destruct (oname_eqb (i_name o) (i_name c)); cbn [check seq]; [|right; reflexivity].
-  destruct (oname_eqb (i_oid o) (i_oid c)); cbn [check seq]; [|right; reflexivity].
-  destruct (i_ref o) as [[d1 l1]|]; [|contradiction]. destruct (i_ref c) as [[d2 l2]|]; [|contradiction].
-  cbn [cmp_ref]. destruct (oname_eqb d1 d2 && oname_eqb l1 l2); cbn [check seq]; [|right; reflexivity].
+  destruct ro as [[d1 l1]|], rc as [[d2 l2]|]; cbn; try (right; reflexivity); [|left; reflexivity].
+  apply assert_only_check.
+Qed.
+
+(* compare_instances on any two instances (or None): returns or raises AssertionError, whatever
+   their names, references and properties *)
+Lemma cmp_inst_assert_only o c : assert_only (cmp_inst o c).
+Proof.
+  unfold cmp_inst. destruct o as [o|], c as [c|]; try (right; reflexivity); [|left; reflexivity].
+  apply assert_only_seq; [apply assert_only_check|].
+  apply assert_only_seq; [apply assert_only_check|].
+  apply assert_only_seq; [apply cmp_ref_assert_only|].
   destruct (i_props o) as [po|], (i_props c) as [pc|]; try (right; reflexivity); [|left; reflexivity].
   destruct (Nat.eqb (length po) (length pc)) eqn:E; cbn [check seq]; [|right; reflexivity].
   apply cmp_props_assert_only. apply Nat.eqb_eq. assumption.
+Qed.
+
+(* ---------- the whole comparer returns or raises AssertionError, on ALL netlist values ----------
+   (Ill = the value is not the abstraction of a netlist the model covers: a pin whose instance
+   or port cannot be followed, PForeign / an unresolvable POut) *)
+Definition ok3 (x : outcome) : Prop := x = Accept \/ x = Reject \/ x = Ill.
+
+Lemma ok3_of_assert x : assert_only x -> ok3 x.
+Proof. intros [->| ->]; [left|right; left]; reflexivity. Qed.
+
+Lemma ok3_seq a b : ok3 a -> ok3 b -> ok3 (seq a b).
+Proof. intros [->|[->| ->]] Hb; cbn; [assumption|right; left; reflexivity|right; right; reflexivity]. Qed.
+
+Lemma ok3_check b : ok3 (check b).
+Proof. apply ok3_of_assert, assert_only_check. Qed.
+
+Lemma cmp_each_ok3 {A} (name : A -> oname) skip look f l :
+  (forall x y, ok3 (f x y)) -> ok3 (cmp_each name skip look f l).
+Proof.
+  intro Hf. induction l as [|o l IH]; cbn; [left; reflexivity|].
+  destruct (name o) as [n|]; [|assumption]. destruct (skip o); [assumption|].
+  destruct (look n) as [c|]; [|right; left; reflexivity]. apply ok3_seq; [apply Hf|assumption].
+Qed.
+
+Lemma cmp_port_assert_only xo xc o c : assert_only (cmp_port xo xc o c).
+Proof. unfold cmp_port. repeat (apply assert_only_seq; [apply assert_only_check|]). apply assert_only_check. Qed.
+
+Lemma inst_equiv_assert_only o c : assert_only (inst_equiv o c).
+Proof.
+  unfold inst_equiv. apply assert_only_seq; [|apply assert_only_check].
+  destruct (asg_class (op_inst o)), (asg_class (op_inst c)); apply assert_only_check.
+Qed.
+
+Lemma inner_equiv_assert_only bo qo xo bc qc xc : assert_only (inner_equiv bo qo xo bc qc xc).
+Proof. unfold inner_equiv. apply assert_only_seq; apply assert_only_check. Qed.
+
+Lemma cmp_pin_ok3 xo xc io ic po pc : ok3 (cmp_pin xo xc io ic po pc).
+Proof.
+  unfold cmp_pin. destruct (resolve xo io po), (resolve xc ic pc);
+    try (left; reflexivity); try (right; left; reflexivity); try (right; right; reflexivity).
+  - apply ok3_of_assert, inner_equiv_assert_only.
+  - apply ok3_of_assert, assert_only_seq; [apply inst_equiv_assert_only|apply inner_equiv_assert_only].
+Qed.
+
+Lemma pin_key_inl x io p e : pin_key x io p = inl e -> e = Ill.
+Proof. unfold pin_key. destruct (resolve x io p); intro H; inversion H; reflexivity. Qed.
+
+Lemma pin_table_inl x io w e : pin_table x io w = inl e -> e = Ill.
+Proof.
+  induction w as [|p w IH]; cbn; [discriminate|].
+  destruct (pin_key x io p) as [e'|k] eqn:Ek.
+  - intro H. inversion H. subst. exact (pin_key_inl _ _ _ _ Ek).
+  - destruct (pin_table x io w) as [e'|t]; [|discriminate]. intro H. inversion H. subst. apply IH. reflexivity.
+Qed.
+
+Lemma cmp_pins_ok3 xo xc io ic po : forall t, ok3 (cmp_pins xo xc io ic po t).
+Proof.
+  induction po as [|o po IH]; intro t; cbn; [left; reflexivity|].
+  destruct (pin_key xo io o) as [e|k] eqn:Ek.
+  - rewrite (pin_key_inl _ _ _ _ Ek). right; right; reflexivity.
+  - destruct (take_key k t) as [[c t']|]; [|right; left; reflexivity].
+    apply ok3_seq; [apply cmp_pin_ok3|apply IH].
+Qed.
+
+Lemma cmp_wire_ok3 xo xc io ic wo wc : ok3 (cmp_wire xo xc io ic wo wc).
+Proof.
+  unfold cmp_wire. apply ok3_seq; [apply ok3_check|].
+  destruct (pin_table xc ic wc) as [e|t] eqn:Et.
+  - rewrite (pin_table_inl _ _ _ _ Et). right; right; reflexivity.
+  - apply cmp_pins_ok3.
+Qed.
+
+Lemma cmp_wires_ok3 xo xc io ic wo : forall wc, ok3 (cmp_wires xo xc io ic wo wc).
+Proof.
+  induction wo as [|o wo IH]; intros [|c wc]; cbn; try (left; reflexivity).
+  apply ok3_seq; [apply cmp_wire_ok3|apply IH].
+Qed.
+
+Lemma cmp_cable_ok3 xo xc io ic o c : ok3 (cmp_cable xo xc io ic o c).
+Proof.
+  unfold cmp_cable. repeat (apply ok3_seq; [apply ok3_check|]). apply cmp_wires_ok3.
+Qed.
+
+Lemma cmp_def_ok3 lo lc o c : ok3 (cmp_def lo lc o c).
+Proof.
+  unfold cmp_def. cbv zeta.
+  apply ok3_seq; [apply ok3_check|]. apply ok3_seq; [apply ok3_check|]. apply ok3_seq; [apply ok3_check|].
+  apply ok3_seq; [apply cmp_each_ok3; intros; apply ok3_of_assert, cmp_port_assert_only|].
+  apply ok3_seq; [apply ok3_check|].
+  apply ok3_seq; [apply cmp_each_ok3; intros; apply cmp_cable_ok3|].
+  apply ok3_seq; [apply ok3_check|].
+  apply ok3_seq; [apply cmp_each_ok3; intros; apply ok3_of_assert, cmp_inst_assert_only|].
+  unfold cmp_assign. cbv zeta. apply ok3_check.
+Qed.
+
+Lemma cmp_lib_ok3 o c : ok3 (cmp_lib o c).
+Proof.
+  unfold cmp_lib. repeat (apply ok3_seq; [apply ok3_check|]).
+  apply cmp_each_ok3. intros. apply cmp_def_ok3.
+Qed.
+
+(* every outcome of compare() is "returns" or AssertionError: no hypothesis on the two netlists
+   (unnamed elements, assignment-style names, dangling pins, pins without a port included) *)
+Theorem cmp_run_assert_only a b : cmp_run a b = Accept \/ cmp_run a b = Reject \/ cmp_run a b = Ill.
+Proof.
+  change (ok3 (cmp_run a b)). unfold cmp_run.
+  apply ok3_seq; [apply ok3_check|]. apply ok3_seq; [apply ok3_check|].
+  apply ok3_seq.
+  - destruct (n_top a), (n_top b); try (left; reflexivity); apply ok3_of_assert, cmp_inst_assert_only.
+  - apply ok3_seq; [apply ok3_check|]. apply cmp_each_ok3. intros. apply cmp_lib_ok3.
+Qed.
+
+Lemma cmp_run_no_other_exception a b :
+  cmp_run a b <> StopIter /\ cmp_run a b <> IndexErr /\ cmp_run a b <> KeyErr /\
+  cmp_run a b <> AttrErr /\ cmp_run a b <> TypeErr.
+Proof.
+  destruct (cmp_run_assert_only a b) as [->|[->| ->]]; repeat split; discriminate.
+Qed.
+
+(* netlists outside the named ones that the general self-acceptance theorem covers: a connected
+   instance without a name, an unnamed port, assignment-style names, a name read as a pattern *)
+Lemma accepts_any_ex :
+  wf_any w_noname /\ ~ wf_named w_noname /\ wf_any w_unnamed /\ wf_any w_asg2 /\ wf_any w_wild /\ wf_any w_zero.
+Proof.
+  split; [vm_compute; reflexivity|]. split; [apply self_unnamed_instance_accepted|].
+  repeat split; vm_compute; reflexivity.
+Qed.
+
+Lemma cmp_run_assert_only_ex :
+  ~ wf_named w_noname /\ cmp_run w_noname w_noname = Accept /\ cmp_run w_noname w_base = Reject.
+Proof.
+  split; [apply self_unnamed_instance_accepted|]. split; [exact w_noname_self|vm_compute; reflexivity].
 Qed.
 
 Lemma cmp_inst_assert_only_ex :
